@@ -160,7 +160,7 @@ def corr_file_layer(pid, tier, seed, kinds):
             "mismatches": r["mismatches"], "oracle": r["oracle"], "errors": r["errors"], "scen_index": idx}
 
 
-def corr_engine(pid, tier, seed, feat, nq, nt, ops=30, dflags="", oracle_props=None, io=None, extra=""):
+def corr_engine(pid, tier, seed, feat, nq, nt, ops=30, dflags="", oracle_props=None, io=None, extra="", offset=0):
     """Engine-layer correspondence: generated scenarios run on the real engine and on the model."""
     rundir = _rundir(pid)
     scen = corpus_scenarios(pid)
@@ -172,7 +172,7 @@ def corr_engine(pid, tier, seed, feat, nq, nt, ops=30, dflags="", oracle_props=N
     scen.extend(s)
     if "-variants" not in extra:
         for i, sc in enumerate(scen):
-            sc[0] = "S %d" % i
+            sc[0] = "S %d" % (i + offset)
     r = run_scripts(pid, rundir, scen, dflags=dflags)
     idx = {sc[0].split()[1]: sc for sc in scen}
     props_ = oracle_props or [pid]
@@ -374,7 +374,7 @@ def corr_merge_results(a, b):
     out["hist"] = h
     idx = dict(a.get("scen_index", {}))
     for k, v in b.get("scen_index", {}).items():
-        idx["it" + k] = v
+        idx[k if k not in idx else "it" + k] = v
     out["scen_index"] = idx
     return out
 
@@ -498,8 +498,12 @@ REGISTRY = {
                         "memory-mapped files: only process crashes are compared (a power-failure cut inside a mapped file leaves a partial record followed by zeros, which Open rejects with a CRC error: known limitation recorded in DESIGN.md)"],
     },
     "C04": {
-        "corr": lambda tier, seed: corr_crash("C04", tier, seed, ["batch"], 50, 1000, oracle_props=["C04", "C03"]),
-        "assumptions": ["as C03; batch ids are the snowflake ids observed from the implementation (an input of the model); distinctness of the ids of a crashed (unsealed) batch and of later batches is assumed"],
+        "corr": lambda tier, seed: corr_merge_results(
+            corr_crash("C04", tier, seed, ["batch"], 50, 1000, oracle_props=["C04", "C03"]),
+            corr_engine("C04", tier, seed + 7, "mergeheavy,batches,bigvals", 40, 1000, ops=30,
+                        dflags="-noevents -skip stat,pos", oracle_props=["C04", "C02", "C06", "C05"], offset=100000)),
+        "assumptions": ["second part of the run: committed batches (also spanning several files) followed by merges, the adopting restart and further restarts - a committed batch stays applied as a whole through every one of them (mapping compared with the reference map and the model after every restart)",
+                        "as C03; batch ids are the snowflake ids observed from the implementation (an input of the model); distinctness of the ids of a crashed (unsealed) batch and of later batches is assumed"],
     },
     "C05": {
         "corr": lambda tier, seed: corr_engine("C05", tier, seed, "batches,restarts,bigvals,hostilesome", 120, 3000, ops=30,
